@@ -235,13 +235,11 @@ class C11(Prop):
             yield mk('c11.polymod', nats(vs), tag='polymod')
             h = rng.choice(['bc', 'tb', 'bcrt', 'A', '~', '1', 'x' * 83, self._rand_hrp(rng)])
             yield mk('c11.createChecksum', cps(h), nats(vs), tag='checksum')
-            yield mk('c11.b32enc', cps(h), nats(vs + ([rng.choice([31, 32, 33, 255])] if rng.randrange(10) == 0 else [])),
-                     tag='bech32-encode')
+            yield mk('c11.b32enc', cps(h), nats(vs), tag='bech32-encode')
             for (f, t, p) in ((8, 5, 1), (5, 8, 0), (5, 8, 1), (8, 5, 0)):
                 m = 1 << f
+                # in-domain values only (what convertbits does with values >= 2^frombits is not the property's business)
                 ds = [rng.choice([0, 1, m - 1, m - 2, rng.randrange(m)]) for _ in range(ln)]
-                if rng.randrange(8) == 0 and ds:
-                    ds[rng.randrange(len(ds))] = rng.choice([m, m + 1, 255, 256, 1 << 20])
                 yield mk('c11.convertbits', nats(ds), f, t, p, tag='convertbits')
             # the 5->8 padding rules: every tail shape (0..7 spare bits, zero / non-zero)
             ds = [rng.randrange(32) for _ in range(ln)] + [rng.choice([0, 1, 2, 4, 8, 16, 3, 24, 28, 30, 31])]
@@ -270,7 +268,7 @@ class C11(Prop):
                     if a is not None:
                         yield mk('c11.decode', cps(h), cps(a), tag='decode-valid')
                         yield mk('c11.decode', cps(h), cps(a.upper()), tag='decode-upper')
-            for v in (17, 31, 32, 33, 100, 255, 256):
+            for v in (17, 18, 30, 31):                 # (versions >= 32 have no character: outside the property)
                 for ln in (0, 2, 20, 32, 40, 41):
                     if mine():
                         yield mk('c11.encode', cps(h), v, rng.randbytes(ln).hex(), tag='encode-badver')
@@ -323,8 +321,8 @@ class C11(Prop):
         naddr = 2 if big else 1
         picks = [self._random_address(rng) for _ in range(naddr)] + [fixed[(shard + k * nshards) % len(fixed)]
                                                                       for k in range(2 if big else 1)]
-        n2 = per_shard(200000 if big else 24000) // len(picks)
-        n34 = per_shard(150000 if big else 8000) // len(picks)
+        n2 = per_shard(400000 if big else 24000) // len(picks)
+        n34 = per_shard(1500000 if big else 20000) // len(picks)
         for (h, a) in picks:
             for i in range(len(a)):
                 for ch in SUBST:
@@ -332,21 +330,24 @@ class C11(Prop):
                         yield mk('c11.decode', cps(h), cps(a[:i] + ch + a[i + 1:]), tag='sub1')
             yield from self._corruptions_sampled(rng, h, a, n2, n34, n34)
             yield from self._case_and_length(rng, h, a)
-        # (3c) thorough: EVERY double substitution (32 data symbols + 4 others) of one P2WPKH address
+        # (3c) thorough: EVERY double substitution (32 data symbols + 4 others) inside the data part of one P2WPKH
+        #       (mainnet), one P2WSH (testnet), one short v16 (regtest) and one address under the prefix "1"
         if big:
-            a = self._enc('bc', 0, bytes(range(1, 21)))
-            sep = a.rfind('1')
-            for i in range(sep + 1, len(a)):
-                for j in range(i + 1, len(a)):
-                    if not mine():
-                        continue
-                    for c1 in SUBST:
-                        if c1 == a[i]:
+            for (h, v, p) in (('bc', 0, bytes(range(1, 21))), ('tb', 0, bytes(range(3, 35))),
+                              ('bcrt', 16, b'\x51\xa7'), ('1', 0, bytes(range(50, 70)))):
+                a = self._enc(h, v, p)
+                sep = a.rfind('1')
+                for i in range(sep + 1, len(a)):
+                    for j in range(i + 1, len(a)):
+                        if not mine():
                             continue
-                        for c2 in SUBST:
-                            if c2 != a[j]:
-                                yield mk('c11.decode', '98,99', cps(a[:i] + c1 + a[i + 1:j] + c2 + a[j + 1:]),
-                                         tag='sub2-all')
+                        for c1 in SUBST:
+                            if c1 == a[i]:
+                                continue
+                            for c2 in SUBST:
+                                if c2 != a[j]:
+                                    yield mk('c11.decode', cps(h), cps(a[:i] + c1 + a[i + 1:j] + c2 + a[j + 1:]),
+                                             tag='sub2-all')
 
         # (4) CBech32Data under each chain's HRP
         for ch in CHAINS:
@@ -355,7 +356,9 @@ class C11(Prop):
                     if not mine():
                         continue
                     p = rng.randbytes(ln)
-                    yield mk('c11.str', ch, v, p.hex(), tag='str')
+                    # str() only of objects the property speaks about (admissible pair) or refused by from_bytes
+                    if v > 16 or (2 <= ln <= 40 and (v != 0 or ln in (20, 32))):
+                        yield mk('c11.str', ch, v, p.hex(), tag='str')
                     for h in CHAIN_HRPS:
                         a = self._enc(h, v, p)
                         if a is not None:
